@@ -993,7 +993,7 @@ func main() {
 			if tier == "thorough" {
 				return 18 * time.Minute
 			}
-			return 160 * time.Second
+			return 4 * time.Minute
 		},
 		Run: runAll, Replay: replay,
 		Evidence: func(m *lib.Merged) map[string]any {
